@@ -236,6 +236,64 @@ def shapes():
     return kinds, partners
 
 
+def relations():
+    """partners in every geometric relation of the RAW coordinates to the kinds of `shapes()` (which live in 0..4):
+    overlapping, touching, contained, disjoint-near, disjoint-far (metre-like magnitudes against degree-like ones: what
+    two genuinely different CRSs look like), each as an areal and as a linear partner (the latter are valid splitters)"""
+    from shapely import geometry as sg
+
+    box = sg.box
+    return {
+        "overlap-line": sg.LineString([(-1, 0.5), (5, 1.75)]),
+        "touch-box": box(2, 0, 4, 2),
+        "touch-line": sg.LineString([(2, -1), (2, 3)]),
+        "contained-box": box(0.5, 0.5, 1, 1),
+        "contained-line": sg.LineString([(0.5, 0.5), (1.5, 1.0)]),
+        "near-box": box(5, 5, 6, 6),
+        "near-line": sg.LineString([(5, -1), (5, 6)]),
+        "near-multiline": sg.MultiLineString([[(5, -1), (5, 6)], [(6, 0), (7, 1)]]),
+        "far-box": box(500000.0, 6000000.0, 500100.0, 6000100.0),
+        "far-line": sg.LineString([(499000.0, 5999000.0), (510000.0, 6100000.0)]),
+        "far-multiline": sg.MultiLineString([[(499000.0, 5999000.0), (510000.0, 6100000.0)], [(-7e6, -3e6), (-7e6, -2e6)]]),
+        "far-point": sg.Point(-2500000.0, 1.25e7),
+    }
+
+
+def ser_raw(r):
+    """raw operand -> JSON-able (for replay files)"""
+    if isinstance(r, tuple) and len(r) == 4:
+        return {"bbox": [repr(float(v)) for v in r]}
+    if isinstance(r, tuple) and len(r) == 2:
+        return {"shape": list(r[0]), "affine": [float(v) for v in tuple(r[1])[:6]]}
+    return {"wkt": r.wkt}
+
+
+def deser_raw(x):
+    from affine import Affine
+    from shapely import wkt
+
+    if "bbox" in x:
+        return tuple(float(v) for v in x["bbox"])
+    if "shape" in x:
+        return (tuple(x["shape"]), Affine(*x["affine"]))
+    return wkt.loads(x["wkt"])
+
+
+def _consume(out):
+    """every lazy result (generator / iterator) is run to its end before anything is judged"""
+    if hasattr(out, "__next__"):
+        return list(out)
+    return out
+
+
+def _eq_nan_seq(a, b) -> bool:
+    import math
+
+    a, b = tuple(a), tuple(b)
+    return len(a) == len(b) and all(x == y or (isinstance(x, float) and isinstance(y, float) and math.isnan(x) and math.isnan(y))
+                                    for x, y in zip(a, b))
+
+
 def geoboxes():
     from affine import Affine
 
@@ -249,6 +307,8 @@ def geoboxes():
         "empty-rows": ((0, 5), Affine(0.25, 0, 0.5, 0, -0.25, 1.5)),
         "empty-cols": ((4, 0), Affine(0.25, 0, 3.0, 0, -0.25, 4.0)),
         "empty-both": ((0, 0), Affine(0.25, 0, 0, 0, -0.25, 2)),
+        "metres-far": ((10, 10), Affine(30.0, 0, 500000.0, 0, -30.0, 6000000.0)),  # what another CRS looks like
+        "far-aligned": ((4, 4), Affine(0.25, 0, 2.0 ** 20, 0, -0.25, -(2.0 ** 21))),  # compatible grid, a million pixels away
     }
 
 
@@ -374,8 +434,8 @@ class Raw:
             return isinstance(raw, gb.GeoBox) and res.shape == raw.shape and res.affine == raw.affine
         if isinstance(res, gm.BoundingBox):
             if isinstance(raw, gm.BoundingBox):
-                return tuple(res.bbox) == tuple(raw.bbox)
-            return tuple(res.bbox) == tuple(raw)
+                return _eq_nan_seq(res.bbox, raw.bbox)
+            return _eq_nan_seq(res.bbox, raw)
         if isinstance(res, bool) or isinstance(raw, bool):
             return isinstance(res, bool) and isinstance(raw, bool) and res == raw
         return res == raw
@@ -441,21 +501,20 @@ class Real:
                 out = getattr(objs[0], m)(**dict(zip(pn[1:], objs[1:])))
             else:  # keyword for module functions, allkeyword for methods (unbound)
                 out = fn(**dict(zip(pn, objs)))
-            return list(out) if m == "split" else out
+            return _consume(out)
         fam, m = name.split(".", 1)
         if fam == "Geometry":
-            out = getattr(self.gmod.Geometry, m)(*objs)
-            return list(out) if m == "split" else out
+            return _consume(getattr(self.gmod.Geometry, m)(*objs))
         if fam == "BoundingBox":
-            return getattr(self.gmod.BoundingBox, m)(*objs)
+            return _consume(getattr(self.gmod.BoundingBox, m)(*objs))
         if fam == "GeoBox":
-            return getattr(self.gbmod.GeoBox, m)(*objs)
+            return _consume(getattr(self.gbmod.GeoBox, m)(*objs))
         if fam == "geom":
             fn = getattr(self.gmod, m)
-            return fn(*objs) if m == "intersects" else fn(self.as_form(objs, form))
+            return _consume(fn(*objs) if m == "intersects" else fn(self.as_form(objs, form)))
         if fam == "geobox":
             fn = getattr(self.gbmod, m)
-            return fn(list(objs)) if m.endswith("_conservative") else fn(*objs)
+            return _consume(fn(list(objs)) if m.endswith("_conservative") else fn(*objs))
         raise KeyError(name)
 
 
@@ -585,7 +644,8 @@ class Ctx:
         truths = [e[1] for e in ents]
         labels = [e[0] for e in ents]
         differ = any(t != truths[0] for t in truths)
-        cdesc = {"op": name, "tags": labels, "kind": case["kind"], "line": case["line"]}
+        cdesc = {"op": name, "tags": labels, "kind": case["kind"], "line": case["line"],
+                 "callform": case.get("callform", "positional"), "raws": [ser_raw(r) for r in case["raws"]]}
         exc = info["raised"]
         if case.get("callform", "positional") != "positional" and isinstance(exc, TypeError):
             # this call form is refused by Python's argument binding: nothing was combined (whether it *should* be
@@ -661,6 +721,19 @@ def gen_strict(C: Ctx):
             raws, kind = [gb0["g0"], gb0["shift"]], "geobox:g0/shift"
         for ea, eb in itertools.product(wide, wide):
             C.add(name, [ea, eb], raws, kind)
+    # --- the geometric RELATION of the raw coordinates, independent of the CRS tags: overlapping / touching / contained /
+    #     disjoint-near / disjoint-far (metres against degrees), both operand orders, every binary geometry operation
+    rel = relations()
+    relkinds = ("polygon", "line", "collection") if R.quick else ("polygon", "line", "collection", "multipolygon", "polygon+hole", "ring")
+    for name, sp in specs.items():
+        fam = name.split(".")[0]
+        if sp["arity"] == "2" and (fam == "Geometry" or name == "geom.intersects"):
+            for (ea, eb) in pairs:
+                for k in relkinds:
+                    for rk, q in rel.items():
+                        C.add(name, [ea, eb], [kinds[k], q], f"{k}/{rk}")
+                        if rk.startswith(("far", "near")):
+                            C.add(name, [ea, eb], [q, kinds[k]], f"{rk}/{k}")
     # --- the spelling / type dimension: every strict operation between a CRS given in any spelling (foreign objects with a
     #     fuzzy to_epsg() included) and its anchors, both operand orders
     for name, sp in specs.items():
@@ -720,6 +793,11 @@ def gen_strict(C: Ctx):
         "empty@1": [kinds["polygon"], sg.GeometryCollection(), partners["P"]],
         "empty@2": [kinds["polygon"], partners["P"], sg.LineString()],
         "all-empty": [sg.Polygon(), sg.Polygon(), sg.Polygon()],
+        "far@0": [rel["far-box"], kinds["polygon"], partners["P"]],
+        "far@1": [kinds["polygon"], rel["far-line"], partners["P"]],
+        "far@2": [kinds["polygon"], partners["P"], rel["far-box"]],
+        "touch+near": [kinds["polygon"], rel["touch-box"], rel["near-box"]],
+        "contained": [kinds["polygon+hole"], rel["contained-box"], rel["contained-line"]],
     }
     for name in ("geom.common_crs", "geom.multigeom", "geom.unary_union", "geom.unary_intersection"):
         C.add(name, [], [], "empty")
@@ -772,7 +850,34 @@ def gen_strict(C: Ctx):
                     es = [base] * n
                     es[pos] = odd
                     C.add(name, es, [rbox() for _ in range(n)], "bbox-stream")
+    nan, inf = float("nan"), float("inf")
+    odd_boxes = {
+        "nan": (nan, nan, nan, nan),              # bounding box of an empty geometry
+        "nan-x": (nan, 0.0, nan, 1.0),
+        "inf": (-inf, -inf, inf, inf),
+        "inf-corner": (0.0, 0.0, inf, inf),
+        "zero-area": (1.0, 1.0, 1.0, 1.0),
+        "inverted": (2.0, 2.0, 1.0, 0.5),          # what a disjoint a & b looks like
+        "far": (500000.0, 6000000.0, 500100.0, 6000100.0),
+        "touching": (2.0, 0.0, 4.0, 2.0),
+    }
+    plain = [(0.0, 0.0, 2.0, 2.0), (1.0, -1.0, 3.0, 1.5), (0.5, 0.5, 1.0, 4.0)]
+    for name in ("geom.bbox_union", "geom.bbox_intersection"):
+        for ok_, ob in odd_boxes.items():
+            for (ea, eb) in pairs:
+                C.add(name, [ea, eb], [ob, plain[0]], f"bbox:{ok_}@0")
+                C.add(name, [ea, eb], [plain[0], ob], f"bbox:{ok_}@1")
+                C.add(name, [ea, eb], [ob, ob], f"bbox:{ok_}@both")
+            for tr in triples:
+                for pos in range(3):
+                    raws = list(plain)
+                    raws[pos] = ob
+                    C.add(name, list(tr), raws, f"bbox:{ok_}@{pos}")
     for name in ("BoundingBox.__and__", "BoundingBox.__or__"):
+        for ok_, ob in odd_boxes.items():
+            for (ea, eb) in pairs:
+                C.add(name, [ea, eb], [ob, plain[1]], f"bbox:{ok_}@0")
+                C.add(name, [ea, eb], [plain[1], ob], f"bbox:{ok_}@1")
         for (ea, eb) in pairs:
             for _ in range(2):
                 C.add(name, [ea, eb], [rbox(), rbox()], "bbox")
@@ -780,7 +885,8 @@ def gen_strict(C: Ctx):
     gbs = geoboxes()
     gpairs = [("g0", "shift"), ("g0", "far"), ("shift", "g0"), ("g0", "g0"), ("g0", "half"), ("g0", "res"),
               ("g0", "empty-rows"), ("empty-rows", "g0"), ("empty-cols", "shift"), ("shift", "empty-cols"),
-              ("empty-rows", "empty-cols"), ("empty-both", "g0"), ("g0", "empty-both")]
+              ("empty-rows", "empty-cols"), ("empty-both", "g0"), ("g0", "empty-both"),
+              ("g0", "metres-far"), ("metres-far", "g0"), ("g0", "far-aligned"), ("far-aligned", "g0")]
     for name, sp in specs.items():
         fam = name.split(".")[0]
         if fam in ("GeoBox", "geobox") and sp["arity"] == "2":
@@ -1382,7 +1488,9 @@ def replay(R: Run, rec) -> int:
 
     kind = case.get("kind", "")
     gbs = geoboxes()
-    if kind.startswith("geobox:"):
+    if case.get("raws"):
+        raws = [deser_raw(x) for x in case["raws"]]
+    elif kind.startswith("geobox:"):
         raws = [gbs[k] for k in kind.split(":", 1)[1].split("/")][: max(len(ents), 1)]
     elif kind == "geobox":
         raws = [gbs["g0"]]
@@ -1399,7 +1507,7 @@ def replay(R: Run, rec) -> int:
         base = sets.get(kind, sets["polys"])
         raws = [base[i % 3] for i in range(len(ents))]
     C.cases = []
-    C.add(name, ents, raws, kind)
+    C.add(name, ents, raws, kind.split("|")[0], callform=case.get("callform", "positional"))
     c = C.cases[0]
     model = run_driver("C01", [c["line"]])[0]
     out, info = C.outcome(c, model)
